@@ -21,6 +21,8 @@ def syms_of(u, acc):
         acc.update(u["s"])
     if u["k"] == "pcls":
         acc.update([1, 2, 3, 4])
+    if u["k"] == "nou":
+        acc.update([12, 15])         # the invalid byte and NUL are ordinary members of byte classes
     for f in ("a", "b"):
         if isinstance(u.get(f), dict):
             syms_of(u[f], acc)
@@ -28,6 +30,8 @@ def syms_of(u, acc):
 
 def job_of(r, probe=None):
     j = dict(r["o"], patterns=[rr.render(p, r["fixed"]) for p in r["pats"]], fixed=r["fixed"])
+    if '"nou"' in json.dumps(r["pats"]):
+        j["ascii_only"] = True      # byte-mode patterns: decided over lines without multi-byte symbols
     if probe is not None:
         j["probe"] = probe
     return j
